@@ -124,6 +124,16 @@ func run(c *Ctx) {
 		id := fmt.Sprintf("c%d", i)
 		idp := progs.Prim{M: "Str", V: id}
 		cs.Ops = append([]progs.Op{{K: "key", Key: []byte("verifid"), P: &idp}}, cs.Ops...)
+		if i%9 == 4 {
+			// a Fields call whose []error holds several marshaler errors (each is encoded through a pooled helper event)
+			var es []*progs.ErrV
+			for k := 2 + g2.R.Intn(2); k > 0; k-- {
+				es = append(es, &progs.ErrV{K: "obj", Ops: g2.GenOps(1, 2)})
+			}
+			cs.Ops = append(cs.Ops, progs.Op{K: "fields", KVs: []progs.FieldKV{{Key: []byte("errs"), K: "errs", Es: es}}})
+			dp := progs.Prim{M: "Int", V: i}
+			cs.Ops = append(cs.Ops, progs.Op{K: "dict", Key: []byte("after"), Sub: []progs.Op{{K: "key", Key: []byte("n"), P: &dp}}})
+		}
 		switch {
 		case i%17 == 3:
 			big := progs.Prim{M: "Str", V: string(bytes.Repeat([]byte("x\"y"), 250))}
@@ -136,8 +146,12 @@ func run(c *Ctx) {
 			cs.Level = 1
 		}
 		o := cs.Run()
-		if o.Panic != nil || !o.Written {
-			continue // discarded by a hook, or a panic (C01 reports those); nothing to compare concurrently
+		if o.Panic != nil {
+			c.Violate(Violation{Key: "logging-call-panicked", Monitor: "no-panic", Desc: fmt.Sprintf("a logging call chain panicked (run alone, after the earlier chains of this run had used the pools): %v", o.Panic), Case: cs.Describe()})
+			continue
+		}
+		if !o.Written {
+			continue // discarded by a hook; nothing to compare concurrently
 		}
 		ref[id] = o.Line
 		line := "(Some " + CoqBytes(o.Line) + ")"
@@ -158,6 +172,41 @@ func run(c *Ctx) {
 		c.Sample(map[string]interface{}{"id": id, "line_bytes": len(o.Line), "ops": progs.DescribeOps(cs.Ops)})
 	}
 
+	// ---- no pooled event is handed back twice (checked without any concurrency: a doubly-put object is
+	//      returned twice by the pool) ----
+	{
+		restore0 := s.Apply()
+		zerolog.TimestampFunc = func() time.Time { return now }
+		zerolog.SetGlobalLevel(zerolog.Level(-128))
+		old := runtime.GOMAXPROCS(1)
+		dups := 0
+		var first *progs.Case
+		for _, cs := range cases {
+			func() {
+				defer func() {
+					if r := recover(); r != nil && first == nil {
+						first = cs
+						dups = -1
+					}
+				}()
+				l := zerolog.New(&sharedWriter{}).Level(zerolog.Level(-128))
+				e := l.WithLevel(zerolog.Level(cs.Level))
+				progs.ApplyEvent(e, cs.Ops)
+				e.Msg(string(cs.Msg))
+				if d := zerolog.VerifDrainEventPool(32); d > 0 && first == nil {
+					dups += d
+					first = cs
+				}
+			}()
+		}
+		runtime.GOMAXPROCS(old)
+		restore0()
+		zerolog.SetGlobalLevel(zerolog.DebugLevel)
+		if first != nil {
+			c.Violate(Violation{Key: "pooled-event-put-twice", Monitor: "pool-drain", Desc: fmt.Sprintf("after this chain the event pool returned the same *Event object %d time(s) more than once: it was handed back to the pool twice, so two later events would share one buffer", dups), Case: first.Describe()})
+		}
+	}
+
 	// ---- concurrent runs ----
 	restore := s.Apply()
 	zerolog.TimestampFunc = func() time.Time { return now }
@@ -175,6 +224,10 @@ func run(c *Ctx) {
 			loggers[i] = l
 		}
 		var wg sync.WaitGroup
+		var panics int64
+		var pmu sync.Mutex
+		var panicCase *progs.Case
+		var panicVal interface{}
 		stop := make(chan struct{})
 		// a goroutine hammering the atomics behind global level / sampling switch with the values already in force
 		go func() {
@@ -201,15 +254,30 @@ func run(c *Ctx) {
 						if (i+r)%3 == 0 {
 							l = l.With().Logger() // derive a child inside the goroutine as well
 						}
-						e := l.WithLevel(zerolog.Level(cs.Level))
-						progs.ApplyEvent(e, cs.Ops)
-						e.Msg(string(cs.Msg))
+						func() {
+							defer func() {
+								if r := recover(); r != nil {
+									atomic.AddInt64(&panics, 1)
+									pmu.Lock()
+									if panicCase == nil {
+										panicCase, panicVal = cs, r
+									}
+									pmu.Unlock()
+								}
+							}()
+							e := l.WithLevel(zerolog.Level(cs.Level))
+							progs.ApplyEvent(e, cs.Ops)
+							e.Msg(string(cs.Msg))
+						}()
 					}
 				}
 			}(g)
 		}
 		wg.Wait()
 		close(stop)
+		if panics != 0 {
+			c.Violate(Violation{Key: "logging-call-panicked", Monitor: "no-panic-concurrent", Desc: fmt.Sprintf("G=%d: %d logging calls panicked while other goroutines were logging (first: %v): pooled buffers are shared between events", G, panics, panicVal), Case: panicCase.Describe()})
+		}
 		if m := atomic.LoadInt64(&w.modified); m != 0 {
 			c.Violate(Violation{Key: "buffer-modified-during-write", Monitor: "checksum-on-entry-and-return", Desc: fmt.Sprintf("%d Write calls saw their argument change before they returned (G=%d)", m, G), Case: map[string]interface{}{"goroutines": G}})
 		}
@@ -265,6 +333,32 @@ func run(c *Ctx) {
 			c.Violate(Violation{Key: "syncwriter-overlap", Monitor: "syncwriter", Desc: fmt.Sprintf("SyncWriter: %d overlapping calls, %d of 3200 writes", fw.overlaps, fw.n), Case: "8 goroutines x 400 events through zerolog.SyncWriter"})
 		}
 		c.Res.Evaluations += 3200
+	}
+	// ---- SyncWriter wrapped again (e.g. a child logger's Output(SyncWriter(appWriter))): still one call at a time ----
+	{
+		fw := &fragileWriter{}
+		appW := zerolog.SyncWriter(fw)
+		app := zerolog.New(appW)
+		child := app.Output(zerolog.SyncWriter(appW))
+		var wg sync.WaitGroup
+		for g := 0; g < 8; g++ {
+			wg.Add(1)
+			go func(g int) {
+				defer wg.Done()
+				for i := 0; i < 300; i++ {
+					if (g+i)%2 == 0 {
+						app.Info().Int("g", g).Int("i", i).Msg("app")
+					} else {
+						child.Info().Int("g", g).Int("i", i).Msg("child")
+					}
+				}
+			}(g)
+		}
+		wg.Wait()
+		if fw.overlaps != 0 || fw.n != 2400 {
+			c.Violate(Violation{Key: "syncwriter-overlap", Monitor: "syncwriter-nested", Desc: fmt.Sprintf("SyncWriter(SyncWriter(w)) used next to SyncWriter(w): %d overlapping calls into w, %d of 2400 writes", fw.overlaps, fw.n), Case: "app := New(SyncWriter(w)); child := app.Output(SyncWriter(SyncWriter(w) as above)); 8 goroutines alternate"})
+		}
+		c.Res.Evaluations += 2400
 	}
 	// ---- the global logger ----
 	{
